@@ -115,7 +115,10 @@ Fixpoint cinsert (x : cand) (l : list cand) : list cand :=
   | h :: r => if key_leb x h then x :: l else h :: cinsert x r
   end.
 Definition csort (l : list cand) : list cand := fold_right cinsert [] l.
-(* candidate_inputs.pop() takes from the END of the sorted list *)
+(* candidate_inputs.pop() takes from the END of the sorted list.
+   Observation (documented only, not a C13 violation): ascending sort + pop() from the end tries the LONGEST
+   serialized output and, among equal lengths, the SMALLEST coin first — the opposite of the evident intent
+   (short ADA-only outputs with much ADA first). The model follows the code. *)
 Definition pop_order (l : list cand) : list cand := rev (csort l).
 
 (* de-duplication keeping the first occurrence:
